@@ -38,3 +38,6 @@ pub fn vec2<T>(a: T, b: T) -> (v: Vec<T>)
 
 pub assume_specification<T>[ core::mem::replace::<T> ](dest: &mut T, src: T) -> (r: T)
     ensures r == *old(dest), *final(dest) == src;
+
+pub assume_specification<T>[ bool::then_some::<T> ](b: bool, v: T) -> (r: Option<T>)
+    ensures r == (if b { Some(v) } else { None });
